@@ -708,7 +708,10 @@ func (c *Ctx) checkHeapMethodsPrivate(rule, rel, typ string) {
 			bad := 0
 			for _, ci := range p.realCallers(fn) {
 				if par := ci.Parent(); par != nil && namedOf(recvTypeOf(par)) == namedOf(recvTypeOf(fn)) && namedOf(recvTypeOf(fn)) != nil {
-					continue // the type's own methods may build on one another
+					switch par.Name() {
+					case "Len", "Less", "Swap", "Push", "Pop":
+						continue // the interface methods may build on one another
+					}
 				}
 				bad++
 				c.viol(rule, typ+"."+m+" is called only by container/heap", p.instrPos(ci), p.FnName(ci.Parent())+" calls the heap.Interface method directly: the element is appended, removed or exchanged without restoring the heap order")
